@@ -84,20 +84,11 @@ def hexahedron(
         if colored:
             col = hexa.faces.create_attribute("color", float, 3)
             RED,GREEN,BLUE = Vec(1.,0.,0), Vec(0.,1.,0.), Vec(0.,0.,1.)
-            col[0] = RED
-            col[1] = RED
-            col[10] = RED
-            col[11] = RED
-
-            col[2] = GREEN
-            col[3] = GREEN
-            col[6] = GREEN
-            col[7] = GREEN
-            
-            col[4] = BLUE
-            col[5] = BLUE
-            col[8] = BLUE
-            col[9] = BLUE
+            # one color per pair of opposite sides (bottom/top, front/back, right/left)
+            side_colors = [RED, GREEN, BLUE, GREEN, BLUE, RED]
+            n_per_side = 2 if triangulate else 1
+            for i_face in range(len(hexa.faces)):
+                col[i_face] = side_colors[i_face//n_per_side]
     return _instanciate_raw_mesh_data(hexa)
 
 def axis_aligned_cube(colored: bool = False, triangulate: bool = False) -> SurfaceMesh:
